@@ -515,10 +515,13 @@ def compare_model(ck, pending, results):
 
 
 def corpus_cases():
-    """witnesses of DESIGN section 4 #1 and #12 (run first)"""
-    yield ("NormalDistribution", {"mu": 0.0, "sigma": 2.0}, {"mu": 0.0, "sigma": 1.0})
-    yield ("ExponentiatedWeibullDistribution", {"alpha": 1.0, "beta": 1.0, "delta": 1.0},
-           {"alpha": 2.0, "beta": 1.5, "delta": 0.7})
+    """witnesses of DESIGN section 4 #1 and #12 (corpus/C05/*.json, run first)"""
+    import glob
+    import json
+
+    for fn in sorted(glob.glob(os.path.join(core.VERIF, "corpus", "C05", "*.json"))):
+        c = json.load(open(fn))
+        yield (c["family"], c["theta"], c["theta0"])
 
 
 def main(ck):
